@@ -455,11 +455,63 @@ def rule_order(chk, cls, base):
                detail_bad='periodic steps are not under `if self.is_periodic`', detail_ok='ok')
     chk.decide(guard('_create_ghosts_mirror') == 'self.is_mirror', 'update-order', 'mirror-guard', node=fn, file=NB,
                func='CPUDomainManager.update', detail_bad='mirror step is not under `if self.is_mirror`', detail_ok='ok')
-    outer = M.enclosing(g.nodes[ids['_remove_ghosts']].ast, (ast.If,))
-    ot = compact(outer.test).replace('(notself.in_parallel)', 'notself.in_parallel') if outer is not None else ''
-    chk.decide(ot in ('(self.is_periodicorself.is_mirror)andnotself.in_parallel',), 'update-order', 'outer-guard', node=outer or fn,
+    # ghosts are managed exactly when the domain is periodic or mirrored and this is not a parallel run (there the parallel manager creates them): per path through update()
+    from verif_static import paths as PT
+    bad_g = None
+    seen_on = seen_off = False
+    import itertools
+    ATOMS = ('self.is_periodic', 'self.is_mirror', 'self.in_parallel')
+
+    def bval(e, env):
+        """truth of a test over the three flags under an assignment; None when it involves anything else"""
+        if isinstance(e, ast.BoolOp):
+            vs = [bval(v, env) for v in e.values]
+            if any(v is None for v in vs):
+                return None
+            return all(vs) if isinstance(e.op, ast.And) else any(vs)
+        if isinstance(e, ast.UnaryOp) and isinstance(e.op, ast.Not):
+            v = bval(e.operand, env)
+            return None if v is None else not v
+        return env.get(compact(e))
+    for p_ in PT.enumerate_paths(M.docstring_stripped(fn.body)):
+        cl = [cal for i, c, cal, env in PT.calls_on(p_)]
+        works = 'self._remove_ghosts' in cl
+        conds = [(PT.resolve(e.node, e.env), e.truth) for e in p_ if e.kind == 'cond']
+        # every assignment of the three flags under which this path is taken
+        models = []
+        for vals in itertools.product((True, False), repeat=3):
+            env_ = dict(zip(ATOMS, vals))
+            if all(bval(t_, env_) in (None, tr_) for t_, tr_ in conds):
+                models.append(env_)
+        for env_ in models:
+            should = (env_[ATOMS[0]] or env_[ATOMS[1]]) and not env_[ATOMS[2]]
+            if should != works:
+                bad_g = bad_g or ('ghosts %s handled with is_periodic=%s, is_mirror=%s, in_parallel=%s' % ('are' if works else 'are not', env_[ATOMS[0]], env_[ATOMS[1]], env_[ATOMS[2]]))
+        if models:
+            seen_on = seen_on or works
+            seen_off = seen_off or not works
+    chk.decide(bad_g is None and seen_on and seen_off, 'update-order', 'outer-guard', node=fn,
                file=NB, func='CPUDomainManager.update',
-               detail_bad='ghost handling runs under %s' % ot, detail_ok='(is_periodic or is_mirror) and not in_parallel')
+               detail_bad='ghost handling must run exactly when (is_periodic or is_mirror) and not in_parallel: %s' % bad_g, detail_ok='(is_periodic or is_mirror) and not in_parallel')
+    # the old ghosts are removed once, by update() itself, before anything is created: a creator that removes ghosts on its own deletes what the other one just made
+    # (periodic images lost on a domain that is periodic along one axis and mirrored along another)
+    callers = sorted(set(name for k_ in (cls, base) for name, f_ in M.methods(k_).items() for c in M.calls(f_) if (M.call_name(c) or '') == 'self._remove_ghosts'))
+    chk.decide(callers == ['update'], 'update-order', '_remove_ghosts:only-update-removes', node=fn, file=NB, func='CPUDomainManager',
+               detail_bad='_remove_ghosts() is called from %s: the ghosts of one kind are deleted again while those of the other are created' % callers, detail_ok='called from update() only')
+    # every option the constructor takes and the base class understands reaches the base class (n_layers, props, the periodic / mirror flags, the box)
+    init_c, init_b = M.find_func(cls, '__init__'), M.find_func(base, '__init__')
+    sup = [c for c in M.calls(init_c) if (M.call_name(c) or '').endswith('__init__') and ((M.call_name(c) or '').startswith(base.name + '.') or (M.call_name(c) or '').startswith('super('))]
+    pc, pb = [a.arg for a in init_c.args.args if a.arg != 'self'], [a.arg for a in init_b.args.args if a.arg != 'self']
+    lost = []
+    if len(sup) == 1:
+        posn = [compact(a) for a in sup[0].args if compact(a) != 'self']
+        kw = dict((k.arg, compact(k.value)) for k in sup[0].keywords if k.arg)
+        for i_, name in enumerate(pb):
+            got = kw.get(name, posn[i_] if i_ < len(posn) else None)
+            if name in pc and got != name:
+                lost.append('%s (%s)' % (name, 'dropped: the base default is used' if got is None else 'receives ' + got))
+    chk.decide(len(sup) == 1 and not lost, 'update-order', 'constructor-forwards-every-option', node=sup[0] if sup else init_c, file=NB, func='CPUDomainManager.__init__',
+               detail_bad='options not handed to DomainManagerBase.__init__: %s' % ', '.join(lost), detail_ok='%d options forwarded under their own names' % len([n_ for n_ in pb if n_ in pc]))
     # _remove_ghosts covers all arrays
     rg = M.find_func(base, '_remove_ghosts')
     loops = [l for l in ast.walk(rg) if isinstance(l, ast.For)]
@@ -550,26 +602,13 @@ def rule_wrap(chk, cls):
 
 
 def rule_cell_size(chk, cls):
-    fn = M.find_func(cls, '_compute_cell_size_for_binning')
-    asg = dict((U(a.targets[0]), a) for a in ast.walk(fn) if isinstance(a, ast.Assign))
-    cs = [a for a in ast.walk(fn) if isinstance(a, ast.Assign) and U(a.targets[0]) == 'cell_size' and 'radius_scale' in U(a.value)]
-    ok = bool(cs) and same(cs[0].value, 'self.radius_scale*hmax')
-    chk.decide(ok, 'layer-thickness', 'cell_size=radius_scale*hmax', node=cs[0] if cs else fn, file=NB,
-               func='_compute_cell_size_for_binning', detail_bad='cell size is %s' % (U(cs[0].value) if cs else None), detail_ok='radius_scale*hmax')
-    folds = [i for i in ast.walk(fn) if isinstance(i, ast.If) and same(i.test, '_hmax>hmax')]
-    src = [a for a in ast.walk(fn) if isinstance(a, ast.Assign) and U(a.targets[0]) == '_hmax' and compact(a.value) == 'h.maximum']
-    loop = [l for l in ast.walk(fn) if isinstance(l, ast.For)]
-    ok = bool(folds) and bool(src) and bool(loop) and compact(loop[0].iter) in ('pa_wrappers', 'self.pa_wrappers')
-    chk.decide(ok, 'layer-thickness', 'hmax-over-all-arrays', node=fn, file=NB, func='_compute_cell_size_for_binning',
-               detail_bad='hmax is not the maximum of h.maximum over all arrays', detail_ok='max over arrays of h.maximum')
-    g = C.build_cfg(fn)
-    upd = [n.id for n in g.nodes if n.ast is not None and isinstance(n.ast, ast.Expr) and M.call_name(n.ast.value) == 'h.update_min_max']
-    rd = [n.id for n in g.nodes if n.ast is not None and isinstance(n.ast, ast.Assign) and 'h.maximum' in U(n.ast.value)]
-    chk.decide(bool(upd) and bool(rd) and g.must_pass(g.entry, rd[0], upd), 'layer-thickness', 'hmax-fresh', node=fn, file=NB,
-               func='_compute_cell_size_for_binning', detail_bad='h.maximum read without update_min_max()', detail_ok='refreshed first')
-    st = [a for a in ast.walk(fn) if isinstance(a, ast.Assign) and U(a.targets[0]) == 'self.cell_size' and U(a.value) == 'cell_size']
-    chk.decide(bool(st), 'layer-thickness', 'stored', node=fn, file=NB, func='_compute_cell_size_for_binning',
-               detail_bad='computed cell size is not stored in self.cell_size', detail_ok='self.cell_size = cell_size')
+    """the thickness of the ghost layers is a multiple of the cell size: decided by the model run of _compute_cell_size_for_binning shared with C01 (largest h over all arrays,
+    refreshed in this call, stored and handed on)"""
+    import importlib.util
+    spec1 = importlib.util.spec_from_file_location('c01mod', os.path.join(os.path.dirname(os.path.abspath(__file__)), 'c01.py'))
+    c01 = importlib.util.module_from_spec(spec1)
+    spec1.loader.exec_module(c01)
+    chk.floor('model runs of _compute_cell_size_for_binning', c01.rule_cell_size_model(chk, rule='layer-thickness'), 15)
 
 
 def main(chk):
